@@ -52,8 +52,20 @@ func init() {
 					"C52-F1:LineFromWKB.Eval",
 				},
 				func(fc *Ctx) { runC52(fc, fx, 0) })
+			expectFixture(c, fx2, "c52-M1: rings swapped in place through a value receiver, points rewritten two levels down, helper writing the receiver's members, operand sorted / de-duplicated / overwritten in place",
+				[]string{
+					"C52-M1:Poly.Swap/store p.Lines[]",
+					"C52-M1:Poly.SetSRID/store p.Lines[].Points[].SRID",
+					"C52-M1:Coll.Swap/swapAll(c.Geoms)",
+					"C52-M1:sortedInPlace/sort.Slice(pts)",
+					"C52-M1:dedupInPlace/append to shortened re-slice of e.Eval().(mut.Line).Points",
+					"C52-M1:copyOver/copy into e.Eval().(mut.Line).Points",
+				},
+				func(fc *Ctx) {
+					runC52Mut(fc, c52MutCfg{typesRel: "testdata/c52/mut", iface: "GeometryValue", minTypes: 4})
+				})
 		},
-		FixturePkgs: []string{"./testdata/c52/types", "./testdata/c52/spatial"},
+		FixturePkgs: []string{"./testdata/c52/types", "./testdata/c52/spatial", "./testdata/c52/mut"},
 	})
 }
 
